@@ -161,14 +161,15 @@ func (vf *VersionedFetcher) Init(
 		false,
 	) // were going to discard and nuke this later
 
-	// run the DF init, VersionedFetchers only supports the Primary (0) index
+	// run the DF init, VersionedFetchers only supports the Primary (0) index: the temporary store
+	// holds the replayed document and no index entries, a secondary index would find nothing in it
 	vf.Fetcher = NewDocumentFetcher()
 	return vf.Fetcher.Init(
 		ctx,
 		identity,
 		vf.store,
 		documentACP,
-		index,
+		immutable.None[client.IndexDescription](),
 		col,
 		fields,
 		filter,
